@@ -152,6 +152,12 @@ pub fn fence_family() -> Vec<String> {
         base.push(format!("---\n{yaml}---\n"));
         base.push(format!("---\n{yaml}---\n\n= sec\n\n> para\n"));
     }
+    // YAML text that begins or ends with blank lines, or is indented as a whole
+    for yaml in ["\ntitle: x\nservings: 4\n", "\n\n  \ntitle: x7\n", "  title: x\n  servings: 4\n", "title: x9\n\n\n", "# comment 5\ntitle: x\n", " \t\ntags: [a, b1]\n \n", "\r\ntitle: x3\r\n", "\u{a0}\ntitle: x8\n"] {
+        base.push(format!("---\n{yaml}---\nBoil the @water{{1%l}}.\n"));
+        base.push(format!("---\n{yaml}---\n"));
+        base.push(format!("---\n{yaml}---"));
+    }
     // a first line that begins with `---` without being a fence (a rule, a comment), content, then a real fence pair
     for head in ["---- Pancakes ----", "--- a comment", "----", "---x", "--- ---", "---:"] {
         for yaml in ["", "note: serve warm\n"] {
